@@ -45,7 +45,8 @@ VARIABLES shape,      \* the program shape (constant after Init)
           fifo,       \* fifo -> [r, w] each "no" | "wait" | "open"
           proc,       \* goroutine -> state of the child process it is waiting for: "none" | "run" (started) |
                       \*   "up" (signal handlers installed, greeting printed) | "int" (interrupt ignored) | "dead"
-          seen,       \* main has observed the cancellation (at a poll, or in an interrupted read / exec)
+          seen,       \* has main observed the cancellation (at a poll, in an interrupted read / exec / wait)?
+                      \*   "no" | "trap" (only inside a trap body) | "yes"
           last        \* the observable event of the last step: <<goroutine, point>>
 vars == <<shape, cancelAt, steps, cancelled, returned, gst, pc, ec, ph, fifo, proc, seen, last>>
 
@@ -67,7 +68,9 @@ Forced(e) == [t |-> "forced", eff |-> <<e>>]   \* runs whether or not the contex
 
 G(kind, prog) == [kind |-> kind, prog |-> prog]
 NoG == G("none", <<>>)
-Sh(id, txt, main, g1) == [id |-> id, txt |-> txt, gs |-> [main |-> G("main", main), j1 |-> g1]]
+Sh(id, txt, main, g1) == [id |-> id, txt |-> txt, trapfrom |-> 0, gs |-> [main |-> G("main", main), j1 |-> g1]]
+\* a shape whose items from index tf on are the body of a trap
+ShT(id, txt, main, tf) == [id |-> id, txt |-> txt, trapfrom |-> tf, gs |-> [main |-> G("main", main), j1 |-> NoG]]
 
 \* main is the goroutine that called Run, j1 the one other goroutine the program starts.
 Shapes == {
@@ -105,7 +108,22 @@ Shapes == {
   Sh("subshell-bg-sleep-wait", "( sleep 100 & wait )",
      <<S(<<NPoll, Spawn("j1"), NPoll, WaitJob("j1")>>)>>, G("bg", <<S(<<Exec(TRUE)>>)>>)),
   Sh("read-procin-loop", "read x < <(while :; do :; done)",
-     <<S(<<Spawn("j1"), FifoOpen("f", "r"), Read>>)>>, G("procsubst", <<Forced(FifoOpen("f", "w")), Loop>>))
+     <<S(<<Spawn("j1"), FifoOpen("f", "r"), Read>>)>>, G("procsubst", <<Forced(FifoOpen("f", "w")), Loop>>)),
+  \* trap bodies: an EXIT trap runs when the program ends -- also when it ends because of Cancel --, an ERR
+  \* trap when a command fails; their statements poll the context like any other statement, so Cancel
+  \* before the trap makes the trap's statements be skipped and Cancel during the trap stops it
+  ShT("trap-exit-loop",  "trap 'while :; do :; done' EXIT; while :; do :; done",
+     <<P, Loop, Loop>>, 3),
+  ShT("trap-exit-exit",  "trap 'while :; do :; done' EXIT; exit 3",
+     <<P, P, Loop>>, 3),
+  ShT("trap-exit-loop0", "trap 'while :; do :; done' EXIT; :",
+     <<P, P, Loop>>, 3),
+  ShT("trap-err-loop",   "trap 'until false; do :; done' ERR; false",
+     <<P, P, Loop>>, 3),
+  ShT("trap-exit-read",  "trap 'read x' EXIT; exit 3",
+     <<P, P, S(<<Read>>)>>, 3),
+  ShT("trap-err-sleep",  "trap 'sleep 100' ERR; false",
+     <<P, P, S(<<Exec(TRUE)>>)>>, 3)
 }
 
 Gs == {"main", "j1"}
@@ -140,7 +158,10 @@ NextForced(g) == LET effs == Item(g).eff
 Abandon(g) == IF NextForced(g) = 0
               THEN pc' = [pc EXCEPT ![g] = pc[g] + 1] /\ ec' = [ec EXCEPT ![g] = 0]
               ELSE pc' = pc /\ ec' = [ec EXCEPT ![g] = NextForced(g)]
-See(g) == seen' = (seen \/ (g = "main" /\ cancelled))
+InTrap(g) == g = "main" /\ shape.trapfrom > 0 /\ pc[g] >= shape.trapfrom
+See(g) == seen' = IF g = "main" /\ cancelled
+                  THEN (IF ~InTrap(g) THEN "yes" ELSE IF seen = "no" THEN "trap" ELSE seen)
+                  ELSE seen
 
 Cancel ==
   /\ Mode = "mc" => steps = cancelAt
@@ -255,7 +276,7 @@ JoinEnter(g) ==                                        \* pr.Close(); wg.Wait()
 JoinExit(g) ==
   /\ gst[g] = "run" /\ InEff(g) /\ Eff(g).e = "pipejoin" /\ ph[g] = "in" /\ gst[Eff(g).g] = "done" /\ Silent(g)
   /\ ph' = [ph EXCEPT ![g] = "idle"] /\ Advance(g)
-  /\ seen' = (seen \/ (g = "main" /\ cancelled))       \* a fatal error of a stage is passed on to the pipeline
+  /\ See(g)                                             \* a fatal error of a stage is passed on to the pipeline
   /\ UNCHANGED <<shape, cancelAt, cancelled, returned, gst, fifo, proc>>
 
 FifoEnter(g) ==
@@ -309,7 +330,7 @@ InitWith(sh) ==
   /\ pc = [g \in Gs |-> 1] /\ ec = [g \in Gs |-> 0] /\ ph = [g \in Gs |-> "idle"]
   /\ fifo = [f \in {"f"} |-> [r |-> "no", w |-> "no"]]
   /\ proc = [g \in Gs |-> "none"]
-  /\ seen = FALSE
+  /\ seen = "no"
   /\ last = <<"env", "init">>
 Init == /\ \E sh \in Shapes : InitWith(sh)
         /\ cancelAt \in 0..MaxCancel
@@ -331,12 +352,12 @@ WakeSound == /\ \A g \in Gs : (proc[g] # "none") => (gst[g] = "run" /\ ph[g] = "
              /\ \A f \in DOMAIN fifo : (fifo[f].r = "open") => (fifo[f].w \in {"wait", "open"})
 
 \* "... makes Run return ... with an error": Run reports an error iff main observed the cancellation.
-\* By the contract every blocking operation that is woken because of Cancel reports it (ErrorReported);
-\* interp's wait builtin does not look at the context, so a program whose main goroutine sits in `wait`
-\* while the job is cancelled ends "successfully": Dev_WaitSwallowsCancel is exactly returned /\ ~seen.
-Dev_WaitSwallowsCancel == returned /\ cancelled /\ ~seen
+\* By the contract every poll and every blocking operation woken by Cancel reports it.  interp restores the
+\* exit status after a trap body ("traps on EXIT or ERR should not modify the result", Runner.trapCallback),
+\* which also discards a cancellation observed only inside the trap: Dev_TrapSwallowsCancel.
+Dev_TrapSwallowsCancel == returned /\ cancelled /\ seen = "trap"
 
-\* Trigger class of the known finding: a process substitution whose FIFO nobody else opens, waited for
+\* Trigger class of the model's self-test (no cancellation path at all): a process substitution whose FIFO nobody else opens, waited for
 HasFifoPeer(sh, side) == \E g \in Gs : \E i \in 1..Len(sh.gs[g].prog) :
                             \E k \in 1..Len(sh.gs[g].prog[i].eff) :
                                sh.gs[g].prog[i].eff[k].e = "fifoopen" /\ sh.gs[g].prog[i].eff[k].side = side
